@@ -666,7 +666,7 @@ var kC13 = run.NewKind("c13.law", func(c *run.Ctx, t c13Case) *run.Fail {
 func init() {
 	run.Register(&run.Prop{
 		ID: "C13", Level: "exploration", MinNontrivial: 5000,
-		Rule: "a case is (law, input[, argument]): one of the 16 laws of the statement evaluated by the real library on one input of the law's stated domain (objects for the entry laws, valid-UTF-8 strings for explode/implode, split/join (with a non-empty 1..3 character separator), @base64 and @uri, JSON-expressible values for tojson|fromjson, finite numbers in int/float64/*big.Int/json.Number form for tostring|tonumber, whole seconds from -62135596800 to 253402300799 for the two date laws, any value for the stream/path laws, string/index paths for setpath|getpath); the result must equal the input under run.Canon AND model.Cmp (exact across number representations; sole relaxation, for tostring|tonumber and tojson|fromjson only: an input number that is a double (float64 or fraction/exponent literal) with |x| >= 2^53 must come back as a number whose nearest double is bit-equal to x and that gojq.Compare reports equal - its shortest digits are read back as an exact integer; uses are counted in observed). Inputs: U_types in every number representation, handpicked awkward containers, PRNG-built nested values (empty/multi-byte/escape-needing/number-like keys, strings over every byte class), seconds at both ends of the range, around special instants, at every day boundary of sampled years and uniformly random. Non-trivial = distinct (law, input, argument) whose input is not null/boolean/\"\"/[]/{} and, for the structural laws, not a scalar.",
+		Rule: "a case is (law, input[, argument]): one of the 16 laws of the statement evaluated by the real library on one input of the law's stated domain (objects for the entry laws, valid-UTF-8 strings for explode/implode, split/join (with a non-empty 1..3 character separator), @base64 and @uri, JSON-expressible values for tojson|fromjson, finite numbers in int/float64/*big.Int/json.Number form for tostring|tonumber, whole seconds from -62135596800 to 253402300799 for the two date laws, any value for the stream/path laws, string/index paths for setpath|getpath); the result must equal the input under run.Canon AND model.Cmp (exact across number representations; sole relaxation, for tostring|tonumber and tojson|fromjson only: an input number that is a double (float64 or fraction/exponent literal) with |x| >= 2^53 must come back as a number whose nearest double is bit-equal to x and that gojq.Compare reports equal - its shortest digits are read back as an exact integer; uses are counted in observed). Inputs: U_types in every number representation, handpicked awkward containers, PRNG-built nested values (empty/multi-byte/escape-needing/number-like keys, strings over every byte class), seconds at both ends of the range, around special instants, at every day boundary of sampled years and uniformly random. Non-trivial = distinct (law, input, argument) whose input is not null/boolean/\"\"/[]/{} and, for the structural laws, not a scalar. Also: a law with x taken from the value at p itself (setpath(p; x) | getpath(p) == x for every prefix and suffix slice and every member), and strings whose byte length lies around fixed buffer and block sizes (62..100001 bytes, one- to four-byte characters) under every string law.",
 		Assumptions: []string{
 			"run.Canon and model.Cmp (harness-owned) decide equality; a fraction/exponent json.Number denotes its double value",
 			"doubles of magnitude >= 2^53 print with the shortest digits that read back as the same double (pinned, C10) and integer literals are read back as exact integers (gojq's documented difference), so for such inputs 'returns its input' through number text means the same double and equality under gojq's own comparison, not the same exact rational (C11 excludes that range for the same reason)",
